@@ -27,7 +27,7 @@ from vlib import Ctx, bag, plain
 
 ID = "C04"
 LEVEL = "proof"
-MODULES = ["SqlframeModel.Props.C04"]
+MODULES = ["SqlframeModel.Codec.C04", "SqlframeModel.Props.C04"]
 GEN = ["Operations", "Methods", "Clauses", "Purity"]
 SOURCES = ["SqlframeModel/Props/C04.lean", "SqlframeModel/Impl/C04.lean"]
 
